@@ -326,6 +326,8 @@ func (fr *Frame) newRef(st *State, prefix string) *Term {
 	ex.freshRefs[r.Op] = ex.ctx.n
 	al := ex.get(st, "Alloc", ArraySort(SRef, SBool))
 	ex.assume(st, And(Neq(r, TNull), Not(Select(al, r))))
+	ex.ctx.Fun("is_root", []string{SRef}, SBool)
+	ex.assume(st, App("is_root", SBool, r))
 	ex.set(st, "Alloc", Store(al, r, TTrue))
 	return r
 }
